@@ -267,13 +267,13 @@ def any_worker(arg):
 
 def check(tier, seed):
     t = pc.trees("plain", "san")
-    n = 160 if tier == "quick" else 1600
-    nprobe = 300 if tier == "quick" else 4000
-    nsan = 12 if tier == "quick" else 150
+    n = 160 if tier == "quick" else 800
+    nprobe = 300 if tier == "quick" else 1500
+    nsan = 12 if tier == "quick" else 60
     res = Result("exploration")
     res.rule = RULE
     base = seed * 1000000 + (0 if tier == "quick" else 50000) + 800000
-    ncomp = 4 if tier == "quick" else 48
+    ncomp = 4 if tier == "quick" else 16
     jobs = [("compiled", base + 900000 + i, t["plain"]) for i in range(ncomp)]
     jobs += [("diff", base + i, t["plain"]) for i in range(n)] + [("diff", base + n + i, t["san"]) for i in range(nsan)]
     jobs += [("probe", base + 20000 + i, t["plain"]) for i in range(nprobe)] + [("probe", base + 20000 + nprobe + i, t["san"]) for i in range(nsan * 2)]
